@@ -212,7 +212,7 @@ def run(ctx):
     # ---------------------------------------------------------------- R17.8 lexer
     sm = mdl.module('svg_to_paths')
     pat = redfa.pattern_of(sm, 'COORD_PAIR_TMPLT')
-    css = r'[+-]?(?:[0-9]*\.[0-9]+|[0-9]+)(?:[eE][+-]?[0-9]+)?'
+    css = r'[+-]?(?:[0-9]*\.[0-9]+|[0-9]+\.?)(?:[eE][+-]?[0-9]+)?'      # SVG 1.1 number: digits, optional fraction (a bare trailing dot is allowed), optional exponent
     dcss = redfa.compile_dfa(css)
     for g in (1, 2):
         d = redfa.compile_dfa(redfa.group_items(pat, g))
